@@ -468,6 +468,14 @@ func (d *mapDriver) expireAll() {
 
 	counted := 0
 
+	// an entry displaced by a colliding key (possibly-lost, and not there any more) cannot be touched
+	for k := range d.lossy {
+		if _, seen := after[k]; !seen {
+			d.forget([]byte(k))
+			d.c.Class("expireall-after-displacement")
+		}
+	}
+
 	for k, e := range d.ref.m {
 		a, seen := after[k]
 
@@ -498,6 +506,22 @@ func (d *mapDriver) expireAll() {
 }
 
 func (d *mapDriver) deleteAll() {
+	if len(d.lossy) > 0 {
+		// entries displaced by a colliding key are not there to be removed (and counted)
+		present := map[string]bool{}
+		_, _ = d.be.Walk(func(k []byte, _ interface{}, _ time.Time) error {
+			present[string(k)] = true
+
+			return nil
+		})
+
+		for k := range d.lossy {
+			if !present[k] {
+				d.forget([]byte(k))
+			}
+		}
+	}
+
 	d.be.DeleteAll(bg)
 	n := d.ref.deleteAll()
 	d.cnt.deletes += float64(n)
